@@ -65,6 +65,15 @@ Proof.
   intros H. rewrite enc_Cons. pose proof (blen_encs_in x k H). unfold blen in *. cbn [length]. rewrite app_length. lia.
 Qed.
 
+(* the optional members gopki writes pass Go's checks: [1] holds a BIT STRING without unused bits *)
+Lemma opt_fields_generated pub : opt_fields_ok [der_explicit 1 (der_bits_full pub)] = true.
+Proof.
+  unfold opt_fields_ok, der_explicit, der_bits_full, der_bits. cbn iota beta.
+  replace ((8 - (8 * blen pub) mod 8) mod 8) with 0 by (rewrite N.mul_comm, N.mod_mul by lia; reflexivity).
+  unfold go_bits_ok. rewrite b2n_n2b by lia. cbn [N.leb N.ltb andb negb].
+  destruct pub as [|x pub]; [reflexivity|]. cbn [N.pow]. rewrite N.mod_1_r. reflexivity.
+Qed.
+
 Section Roundtrip.
   Variable base_mult : keyalg -> N -> bytes.
   Variable order : keyalg -> N.
@@ -107,7 +116,9 @@ Section Roundtrip.
     rewrite A2, (curve_of_oid_roundtrip c co Hin Hco).
     unfold parse_ec_private_key, parse_all.
     pose proof (parse_enc inner [] Wi Li) as Pi. rewrite app_nil_r in Pi. rewrite Pi.
-    rewrite Ei at 1. cbn [der_seq der_int der_octets]. rewrite int_roundtrip, Hw, Vs, Ls.
+    rewrite Ei at 1. cbn [der_seq der_int der_octets]. rewrite int_roundtrip.
+    change (opt_fields_ok [der_explicit 1 (der_bits_full pub)]) with (opt_fields_ok [der_explicit 1 (der_bits_full pub)]).
+    rewrite opt_fields_generated. cbn [negb]. rewrite Hw, Vs, Ls.
     replace (d <? order c) with true by lia. rewrite Nat.leb_refl. reflexivity.
   Qed.
 End Roundtrip.
